@@ -41,6 +41,7 @@ const (
 	compOpAll  = "_all"
 	compOpNone = "_none"
 	opNot      = "_not"
+	opOr       = "_or"
 	// it's just there for composite indexes. We construct a slice of value matchers with
 	// every matcher being responsible for a corresponding field in the index to match.
 	// For some fields there might not be any criteria to match. For examples if you have
@@ -776,6 +777,9 @@ func (f *indexFetcher) determineFieldFilterConditions() ([]fieldFilterCond, erro
 			// case index will do more harm. For example if we have _not: {_eq: 5} and the index
 			// fetches value 5, it will skip all documents with value 5, but we need to return them.
 			opNot,
+			// a condition under _or does not restrict the result on its own: documents that match
+			// another branch of the _or would never be fetched through the index.
+			opOr,
 		)
 
 		// if after traversing the filter for the first field we didn't find any condition that can
